@@ -1,2 +1,6 @@
 #include "c15_exec.h"
+#include "c15_many.h"
+#include "c15_flag.h"
 VH_CONFIG("st_lowfull", [](vh::Case& c) { c15::run_case<stc::Opt_low_full>(c, c15::Gen{0 != 0, 1 != 0, 1 != 0}, "lowfull"); });
+VH_CONFIG("st_many_vertices_lowfull", [](vh::Case& c) { c15::run_many_vertices<stc::Opt_low_full>(c, "lowfull"); });
+VH_CONFIG("st_flag_lowfull", [](vh::Case& c) { c15::run_flag<stc::Opt_low_full>(c, "lowfull"); });
